@@ -329,6 +329,9 @@ func (n *Normer) Norm(v ssa.Value) Poly {
 	case *ssa.Call:
 		return n.normCall(x)
 	case *ssa.Field:
+		if p, ok := n.fieldOf(x.X, x.Field, 0); ok {
+			return p
+		}
 		st := x.X.Type().Underlying().(*types.Struct)
 		return pAtom(n.Norm(x.X).asAtom() + "." + fname(st.Field(x.Field)))
 	case *ssa.Index:
@@ -635,6 +638,13 @@ func (n *Normer) normLoad(addr ssa.Value) Poly {
 			pl, _, _ := rootAlloc(st.Addr)
 			_ = pl
 			_, sp, _ := rootAlloc(st.Addr)
+			if rest := path[len(sp):]; len(rest) == 1 {
+				if _, isStruct := st.Val.Type().Underlying().(*types.Struct); isStruct {
+					if p, ok := n.fieldOf(st.Val, rest[0], 0); ok {
+						return p
+					}
+				}
+			}
 			base := n.Norm(st.Val).asAtom()
 			t := st.Val.Type()
 			for _, f := range path[len(sp):] {
@@ -770,12 +780,18 @@ func (n *Normer) inlineCall(x *ssa.Call, idx int) (Poly, bool) {
 	env := map[ssa.Value]Poly{}
 	for i, p := range callee.Params {
 		if i < len(x.Common().Args) {
+			if _, isStruct := p.Type().Underlying().(*types.Struct); isStruct {
+				continue // resolved field-wise through the calling context (fieldOf)
+			}
 			env[p] = n.Norm(x.Common().Args[i])
 		}
 	}
 	n.env = append(n.env, env)
 	n.depth++
+	savedCtx := n.Ctx
+	n.Ctx = append(append([]ssa.CallInstruction{}, savedCtx...), x)
 	res := n.Norm(ret.Results[idx])
+	n.Ctx = savedCtx
 	n.depth--
 	n.env = n.env[:len(n.env)-1]
 	return res, true
@@ -1090,4 +1106,144 @@ func (n *Normer) NormAt(s DeepSite, v ssa.Value) Poly {
 	n.Ctx = s.Path
 	defer func() { n.Ctx = saved }()
 	return n.Norm(v)
+}
+
+// ---------------------------------------------------------------------------------------------
+// Struct value flow: the value of one field of a struct VALUE that is built locally (composite
+// literal or field-wise stores into a local), handed over as an argument, or returned by a helper.
+// Grouping a few values in a small struct does not hide them from the rules.
+
+// paramArg: the argument bound to parameter p in the current calling context, or at the only call
+// site of an unexported function.
+func (n *Normer) paramArg(p *ssa.Parameter) (ssa.Value, []ssa.CallInstruction, bool) {
+	fn := p.Parent()
+	idx := -1
+	for i, q := range fn.Params {
+		if q == p {
+			idx = i
+		}
+	}
+	if idx < 0 || fn.Parent() != nil {
+		return nil, nil, false
+	}
+	for k := len(n.Ctx) - 1; k >= 0; k-- {
+		if n.Ctx[k].Common().StaticCallee() == fn {
+			args := n.Ctx[k].Common().Args
+			if idx >= len(args) {
+				return nil, nil, false
+			}
+			return args[idx], n.Ctx[:k], true
+		}
+	}
+	if n.Root == fn || (fn.Object() != nil && fn.Object().Exported()) {
+		return nil, nil, false
+	}
+	sites := n.P.callSitesOf(fn)
+	if len(sites) != 1 || idx >= len(sites[0].Common().Args) {
+		return nil, nil, false
+	}
+	return sites[0].Common().Args[idx], nil, true
+}
+
+func (n *Normer) fieldOf(v ssa.Value, f int, depth int) (Poly, bool) {
+	if depth > 5 {
+		return nil, false
+	}
+	if _, bound := n.Bind[v]; bound {
+		return nil, false
+	}
+	for i := len(n.env) - 1; i >= 0; i-- {
+		if _, ok := n.env[i][v]; ok {
+			return nil, false
+		}
+	}
+	switch x := v.(type) {
+	case *ssa.UnOp:
+		if x.Op != token.MUL {
+			return nil, false
+		}
+		a, ok := x.X.(*ssa.Alloc)
+		if !ok {
+			return nil, false
+		}
+		stores, paths, _ := storesTo(a)
+		var field, whole []*ssa.Store
+		for i, st := range stores {
+			switch {
+			case len(paths[i]) == 1 && paths[i][0] == f:
+				field = append(field, st)
+			case len(paths[i]) == 0:
+				whole = append(whole, st)
+			case len(paths[i]) > 1 && paths[i][0] == f:
+				return nil, false // nested writes into the field
+			}
+		}
+		switch {
+		case len(field) == 1 && len(whole) == 0 && dominatesInstr(field[0], x):
+			return n.Norm(field[0].Val), true
+		case len(field) == 0 && len(whole) == 1 && dominatesInstr(whole[0], x):
+			return n.fieldOf(whole[0].Val, f, depth+1)
+		case len(field) == 0 && len(whole) == 0:
+			// zero value of the field
+			if st, ok := a.Type().Underlying().(*types.Pointer).Elem().Underlying().(*types.Struct); ok && f < st.NumFields() && isIntType(st.Field(f).Type()) {
+				return pConst(0), true
+			}
+		}
+		return nil, false
+	case *ssa.Parameter:
+		arg, ctx, ok := n.paramArg(x)
+		if !ok {
+			return nil, false
+		}
+		saved := n.Ctx
+		n.Ctx = ctx
+		p, ok := n.fieldOf(arg, f, depth+1)
+		if !ok {
+			// the argument itself may be an ordinary struct value: project by name
+			if _, isStruct := arg.Type().Underlying().(*types.Struct); isStruct {
+				st := arg.Type().Underlying().(*types.Struct)
+				p, ok = pAtom(n.Norm(arg).asAtom()+"."+fname(st.Field(f))), true
+			}
+		}
+		n.Ctx = saved
+		return p, ok
+	case *ssa.Call:
+		cal := x.Common().StaticCallee()
+		if cal == nil || !isRepoFunc(cal) || cal.Blocks == nil || cal.Signature.Results().Len() != 1 {
+			return nil, false
+		}
+		rets := returnsOf(cal)
+		if len(rets) != 1 {
+			return nil, false
+		}
+		for _, c := range n.Ctx {
+			if c.Common().StaticCallee() == cal {
+				return nil, false
+			}
+		}
+		saved := n.Ctx
+		n.Ctx = append(append([]ssa.CallInstruction{}, saved...), x)
+		p, ok := n.fieldOf(rets[0].Results[0], f, depth+1)
+		n.Ctx = saved
+		return p, ok
+	case *ssa.Extract:
+		call, ok := x.Tuple.(*ssa.Call)
+		if !ok {
+			return nil, false
+		}
+		cal := call.Common().StaticCallee()
+		if cal == nil || !isRepoFunc(cal) || cal.Blocks == nil {
+			return nil, false
+		}
+		rets := returnsOf(cal)
+		if len(rets) != 1 || x.Index >= len(rets[0].Results) {
+			return nil, false
+		}
+		saved := n.Ctx
+		n.Ctx = append(append([]ssa.CallInstruction{}, saved...), call)
+		p, ok := n.fieldOf(rets[0].Results[x.Index], f, depth+1)
+		n.Ctx = saved
+		return p, ok
+	}
+	return nil, false
 }
